@@ -14,6 +14,12 @@ C10.soa     the closing SOA of a transfer is compared with the opening SOA as a
 C10.diff    the "old" side of the diff a writer records is read at the last
             published version in both update_rrset and remove_rrset (sibling
             agreement): the diff describes published-old -> new.
+C10.funnel  the IXFR diff funneler forwards every item of a diff except SOA
+            RRsets (which frame the sections): forwarding is not conditional
+            on the owner name, so changes at the zone apex are sent too.
+C10.room    the room an XFR response message may use is the transport's
+            maximum minus the bytes later middleware (TSIG) reserved, on the
+            UDP *and* on the TCP arm.
 C10.abandon an abandoned update is rolled back: shares the rollback-coverage,
             Drop and Versioned guard-table rules of C09 (rbk, drop, ver).
 """
@@ -41,6 +47,8 @@ def run(ctx):
     rule_commit(ctx, F)
     rule_soa(ctx, F)
     rule_diff(ctx, F)
+    rule_funnel(ctx, F)
+    rule_room(ctx, F)
     # abandoned work is rolled back (shared rules)
     c09.rule_rbk(ctx, F)
     c09.rule_drop(ctx, F)
@@ -253,3 +261,60 @@ def rule_diff(ctx, F):
                    "commit must describe last published -> new (several changes to one RRset inside a transaction "
                    "otherwise under-report what was removed)" % (name, prov), b.where(bb))
     ctx.anchor(R, "diff lookups in update_rrset and remove_rrset", seen >= 2)
+
+
+def rule_funnel(ctx, F):
+    R = "C10.funnel"
+    ctx.floor(R, 1)
+    bs = [b for p, b in F.bodies.items() if re.match(r"^net::server::middleware::xfr::ixfr::DiffFunneler::<.*>::send_diff_section::\{closure#0\}$", p)]
+    if not ctx.anchor(R, "DiffFunneler::send_diff_section", len(bs) == 1):
+        return
+    b = bs[0]
+    from rulelib import cyclic_blocks
+    cyc = cyclic_blocks(b)
+    sends = [bb for bb, t in b.calls() if re.search(r"Sender::<.*>::send$", t["fn"] or "") and bb in cyc]
+    if not ctx.anchor(R, "the per-item send inside the diff loop", len(sends) >= 1, b.where()):
+        return
+    for n, bb in enumerate(sends):
+        conds = []
+        for tt, v, _ in facts_at(b, bb, F):
+            s = deep_strip(tt)
+            if isinstance(v, bool) and ((s[0] == "call" and re.search(r"::(eq|ne)$", s[1] or "")) or (s[0] == "bin" and s[1] in ("Eq", "Ne"))):
+                conds.append((show(s), v))
+        soa_only = all(re.search(r"\b6\b|SOA", c) for c, _ in conds)
+        names = [c for c, _ in conds if not re.search(r"\b6\b|SOA", c)]
+        ctx.ob(R, b, "item send #%d depends on the record type only" % (n + 1), soa_only,
+               "the diff funneler forwards an item only if %s holds as well: RRsets the condition excludes (e.g. non-SOA "
+               "RRsets at the zone apex) are left out of the IXFR and the secondary reaches the new serial with old data"
+               % "; ".join(names[:2]), b.where(bb), detail="conditions on the send: %s" % [c[:60] for c, _ in conds])
+
+
+def rule_room(ctx, F):
+    R = "C10.room"
+    ctx.floor(R, 2)
+    bs = [b for p, b in F.bodies.items() if re.match(r"^net::server::middleware::xfr::service::XfrMiddlewareSvc::<.*>::calc_msg_bytes_available(::<.*>)?$", p)]
+    if not ctx.anchor(R, "XfrMiddlewareSvc::calc_msg_bytes_available", len(bs) == 1):
+        return
+    b = bs[0]
+    bf = BranchFacts(b, F)
+    arms = {}
+    for sw in sorted(b.reachable_blocks()):
+        if b.blocks[sw]["t"]["k"] != "switch":
+            continue
+        for lab, (tt, v) in bf.edge_facts(sw).items():
+            if isinstance(v, tuple) and v[0] == "variant" and "transport_ctx" in show(deep_strip(tt)):
+                arms[v[1]] = b.edge_target(sw, lab)
+    if not ctx.anchor(R, "UDP / non-UDP arms", len(arms) >= 2, b.where()):
+        return
+    for var, tgt in sorted(arms.items()):
+        others = set().union(*[b.reach_from(t2) for v2, t2 in arms.items() if v2 != var])
+        own = b.reach_from(tgt) - others
+        subs = False
+        for bb in own:
+            for st in b.blocks[bb]["s"]:
+                if st[0] == "=" and st[2][0] == "bin" and st[2][1].startswith("Sub"):
+                    if "num_reserved_bytes" in show(deep_strip(b.term_of_operand(st[2][3]))):
+                        subs = True
+        ctx.ob(R, b, "the %s arm leaves the reserved bytes free" % var, subs,
+               "calc_msg_bytes_available does not subtract req.num_reserved_bytes() on the %s arm: XFR fills its messages into "
+               "the room a later middleware (TSIG) reserved, the signature no longer fits and the transfer fails" % var)
